@@ -192,9 +192,24 @@ def type_gate(n: int, c0: int, c1: int, c2: int, k1: bool, k2: bool, dup: bool) 
     P.check(hs == want, "headers-keep-order-and-duplicates", "gate:headers")
     P.check(enforce_headers({n1: "1", n2: b"2"}, name="h") == want[:2], "header-mapping", "gate:header-mapping")
     P.check(enforce_headers(None, name="h") == [], "no-headers", "gate:none")
-    if not ascii_only:
+    # the same gate at every place that accepts text: header names and values (sequence and mapping form), the
+    # method, the URL as one string and by components
+    enc = s.encode("ascii") if ascii_only else None
+    sites: list[tuple[str, typing.Callable[[], typing.Any], typing.Any]] = [
+        ("header-name", lambda: enforce_headers([(s, "v")], name="h"), [(enc, b"v")]),
+        ("header-value", lambda: enforce_headers([("n", s)], name="h"), [(b"n", enc)]),
+        ("header-name(mapping)", lambda: enforce_headers({s: "v"}, name="h"), [(enc, b"v")]),
+        ("header-value(mapping)", lambda: enforce_headers({"n": s}, name="h"), [(b"n", enc)]),
+        ("method", lambda: httpcore.Request(s, "http://a.test/").method, enc),
+        ("url-scheme", lambda: httpcore.URL(scheme=s, host="a.test", target="/").scheme, enc),
+        ("url-target", lambda: httpcore.URL(scheme="http", host="a.test", target="/" + s).target, None if enc is None else b"/" + enc),
+        ("request-header-value", lambda: httpcore.Request("GET", "http://a.test/", headers=[("n", s)]).headers, [(b"n", enc)]),
+    ]
+    for what, fn, want_v in sites:
         try:
-            enforce_headers([(s, "v")], name="h")
-            P.fail("non-ascii-header-name-rejected", "gate:header-non-ascii")
+            got = fn()
+            P.check(ascii_only, "non-ascii-text-rejected", f"gate:non-ascii-accepted:{what}")
+            if ascii_only:
+                P.check(got == want_v, "ascii-text-encoded", f"gate:encoding:{what}")
         except TypeError:
-            P.reached()
+            P.check(not ascii_only, "ascii-text-and-bytes-accepted", f"gate:rejected:{what}")
